@@ -718,6 +718,21 @@ func geList(facts []Fact) []Poly {
 			ge = append(ge, f.D.Neg())
 		}
 	}
+	// an integer that is not zero and is known not to be negative is at least one
+	// (`if len(d) == 0 { return }` ... d[0])
+	base := len(ge)
+	for _, f := range facts {
+		if !f.NE {
+			continue
+		}
+		for i := 0; i < base; i++ {
+			if ge[i].Equal(f.D) {
+				ge = append(ge, f.D.Sub(polyConst(1)))
+			} else if ge[i].Equal(f.D.Neg()) {
+				ge = append(ge, f.D.Neg().Sub(polyConst(1)))
+			}
+		}
+	}
 	return ge
 }
 
